@@ -230,7 +230,7 @@ def make_probe(name, params, nout=1, log=None, internal_shape=None, ret_list=Fal
             if fault and fault.get("unpicklable") and t in fault["unpicklable"] and nout > 1 and not internal_shape:
                 # the LAST output of this invocation cannot be stored: earlier outputs of the element get written, this one not
                 out = (*out[:-1], Unpicklable(out[-1]))
-            if fault and fault.get("none") and t in fault["none"] and nout == 1 and not internal_shape:
+            if fault and fault.get("none") and (fault["none"] == "*" or t in fault["none"]) and nout == 1 and not internal_shape:
                 out = None  # this invocation legitimately returns None
             if ret is not None:  # a falsy / None-valued result (first output only for tuple outputs)
                 fv = FALSY[ret]
